@@ -449,6 +449,8 @@ func (vc *VC) havocLoop(li *loopInfo, h *Heap) {
 		sort      Sort
 		obj, slot string // loop-invariant object/slot terms, or ""
 		coarse    bool
+		dyn       int // for coarse targets: dyntype of the objects that may be written (0 = unknown)
+		slotOff   int // for coarse targets with dyn: slot written (-1 = any)
 	}
 	var targets []target
 	coarseAll := false
@@ -507,8 +509,31 @@ func (vc *VC) havocLoop(li *loopInfo, h *Heap) {
 							continue
 						}
 					}
-					for _, l := range ls {
-						targets = append(targets, target{sort: l.Sort, coarse: true})
+					// store through a loop-variant pointer: restrict by the static type where we can
+					dyn, so := 0, -1
+					switch a := x.Addr.(type) {
+					case *ssa.FieldAddr:
+						pt := a.X.Type().Underlying().(*types.Pointer).Elem()
+						if id, ok := vc.baseType(pt); ok {
+							dyn = id
+							so, _ = vc.L.FieldOffset(pt.Underlying().(*types.Struct), a.Field)
+						}
+					case *ssa.IndexAddr:
+						if id, ok := vc.backingType(a.X.Type()); ok {
+							dyn = id
+							so = 0
+						} else if pp, isP := a.X.Type().Underlying().(*types.Pointer); isP {
+							if id, ok := vc.backingType(pp.Elem()); ok {
+								dyn, so = id, 0
+							}
+						}
+					}
+					for i, l := range ls {
+						s2 := so
+						if so >= 0 {
+							s2 = so + i
+						}
+						targets = append(targets, target{sort: l.Sort, coarse: true, dyn: dyn, slotOff: s2})
 					}
 					continue
 				}
@@ -530,8 +555,9 @@ func (vc *VC) havocLoop(li *loopInfo, h *Heap) {
 						continue
 					case "append", "copy":
 						allocs = true
-						for _, l := range vc.L.Leaves(sliceElem(cc.Args[0].Type())) {
-							targets = append(targets, target{sort: l.Sort, coarse: true})
+						dyn, _ := vc.backingType(cc.Args[0].Type())
+						for i, l := range vc.L.Leaves(sliceElem(cc.Args[0].Type())) {
+							targets = append(targets, target{sort: l.Sort, coarse: true, dyn: dyn, slotOff: i})
 						}
 						continue
 					}
@@ -551,16 +577,55 @@ func (vc *VC) havocLoop(li *loopInfo, h *Heap) {
 		return
 	}
 	done := map[string]bool{}
+	// coarse targets per sort: either fully unknown, or restricted to (dyntype, slot) pairs
+	type dynSlot struct{ dyn, slot int }
+	coarseDyn := map[Sort][]dynSlot{}
+	coarseFull := map[Sort]bool{}
 	for _, t := range targets {
 		if t.coarse {
-			k := "coarse" + sortTag[t.sort]
-			if done[k] {
-				continue
+			if t.dyn == 0 {
+				coarseFull[t.sort] = true
+			} else {
+				coarseDyn[t.sort] = append(coarseDyn[t.sort], dynSlot{t.dyn, t.slotOff})
 			}
-			done[k] = true
-			vc.note(fmt.Sprintf("loop#%d of %s: coarse havoc of heap kind %s", li.ord, vc.key, sortTag[t.sort]))
-			h.H[t.sort] = vc.newHeapConst(t.sort)
 		}
+	}
+	for s := Sort(0); s < nSorts; s++ {
+		if coarseFull[s] {
+			done["coarse"+sortTag[s]] = true
+			vc.note(fmt.Sprintf("loop#%d of %s: coarse havoc of heap kind %s", li.ord, vc.key, sortTag[s]))
+			h.H[s] = vc.newHeapConst(s)
+			continue
+		}
+		ds := coarseDyn[s]
+		if len(ds) == 0 {
+			continue
+		}
+		// typed havoc: only objects of the listed dynamic types, only the listed slots
+		old := h.H[s]
+		nh := vc.newHeapConst(s)
+		var isT []string
+		seenT := map[int]bool{}
+		for _, d := range ds {
+			if !seenT[d.dyn] {
+				seenT[d.dyn] = true
+				isT = append(isT, "(= (dyntype o) "+num(int64(d.dyn))+")")
+			}
+		}
+		vc.assume(fmt.Sprintf("(forall ((o Int)) (! (=> (not %s) (= (select %s o) (select %s o))) :pattern ((select %s o))))", or(isT...), nh, old, nh))
+		var hit []string
+		anySlot := false
+		for _, d := range ds {
+			if d.slot < 0 {
+				anySlot = true
+			}
+			hit = append(hit, "(and (= (dyntype o) "+num(int64(d.dyn))+") (= sl "+num(int64(d.slot))+"))")
+		}
+		if !anySlot {
+			vc.assume(fmt.Sprintf("(forall ((o Int) (sl Int)) (! (=> (not %s) (= (select (select %s o) sl) (select (select %s o) sl))) :pattern ((select (select %s o) sl))))", or(hit...), nh, old, nh))
+		}
+		h.H[s] = nh
+		done["typed"+sortTag[s]] = true
 	}
 	for _, t := range targets {
 		if t.coarse || done["coarse"+sortTag[t.sort]] {
@@ -660,20 +725,36 @@ func (vc *VC) postObligations() error {
 	for _, r := range vc.rets {
 		ev := vc.newEval(vc.fn, r.heap, vc.heap0, nil)
 		ev.results = r.vals
+		rblk := r.blk
+		ev.resolve = func(name string) (EVal, bool) {
+			if ev.allowLocals == 0 {
+				return EVal{}, false
+			}
+			return vc.resolveLocalAtBlock(ev, name, rblk)
+		}
 		pos := vc.pos(r.blk.Instrs[len(r.blk.Instrs)-1].Pos())
 		for i, c := range ct.Ensures {
 			vc.goalClause(ev, c, fmt.Sprintf("%s/post#%d@b%d", vc.key, i+1, r.blk.Index), "post", r.guard, pos)
 		}
 		for i, c := range ct.LockBal {
 			evOld := vc.newEval(vc.fn, vc.heap0, vc.heap0, nil)
-			a0, _, err := evOld.lvalue(c.E)
+			mv, err := evOld.expr(c.E)
+			if err != nil {
+				return fmt.Errorf("%s: lock-balanced: %v", vc.key, err)
+			}
+			a0, mt, err := evOld.mutexAddr(mv)
 			if err != nil {
 				return fmt.Errorf("%s: lock-balanced: %v", vc.key, err)
 			}
 			cur := sel(sel(sel(r.heap.H[SInt], a0.Obj), a0.Slot), a0.Idx)
 			old := sel(sel(sel(vc.heap0.H[SInt], a0.Obj), a0.Slot), a0.Idx)
+			goal := eq(cur, old)
+			if rs := vc.rwReaderSlot(mt); rs != 0 {
+				ar := a0.Plus(rs)
+				goal = and(goal, eq(sel(sel(sel(r.heap.H[SInt], ar.Obj), ar.Slot), ar.Idx), sel(sel(sel(vc.heap0.H[SInt], ar.Obj), ar.Slot), ar.Idx)))
+			}
 			vc.addObl(&Obligation{Name: fmt.Sprintf("%s/lock-balance#%d@b%d", vc.key, i+1, r.blk.Index), Kind: "lock-balance",
-				Goal: implies(r.guard, eq(cur, old)), Pos: pos, Src: "lock-balanced " + c.Src})
+				Goal: implies(r.guard, goal), Pos: pos, Src: "lock-balanced " + c.Src})
 		}
 		if ct.HasMod && !ct.ModAll {
 			if err := vc.frameObligation(r, pos); err != nil {
